@@ -19,7 +19,7 @@ import traceback
 from . import core
 
 ROOT = os.path.dirname(os.path.dirname(os.path.abspath(__file__)))
-REPO = "/repo"
+REPO = os.environ.get("VERIF_REPO", "/repo")
 _TOOL = 3
 _seen_code = set()
 
@@ -219,7 +219,8 @@ def finish(pid, tier, seed, meta, jd, results, t_start):
 
     # ---- violations vs known findings
     known = load_known()
-    outdir = os.path.join(ROOT, "out", pid)
+    OUT = os.environ.get("VERIF_OUT", ROOT)      # (mutation runs write their evidence / replay files elsewhere)
+    outdir = os.path.join(OUT, "out", pid)
     os.makedirs(outdir, exist_ok=True)
     new_violations, known_hits = [], {}
     seen = set()
@@ -283,10 +284,10 @@ def finish(pid, tier, seed, meta, jd, results, t_start):
         ev["coverage"]["states"] = 1
     if ev["coverage"]["transitions"] < 1:
         ev["coverage"]["transitions"] = 1
-    os.makedirs(os.path.join(ROOT, "evidence"), exist_ok=True)
-    tmp = os.path.join(ROOT, "evidence", pid + ".json.tmp")
+    os.makedirs(os.path.join(OUT, "evidence"), exist_ok=True)
+    tmp = os.path.join(OUT, "evidence", pid + ".json.tmp")
     json.dump(ev, open(tmp, "w"), indent=1, default=repr)
-    os.replace(tmp, os.path.join(ROOT, "evidence", pid + ".json"))
+    os.replace(tmp, os.path.join(OUT, "evidence", pid + ".json"))
 
     print("%s %s: %d paths (%d reached end, %d infeasible), %d obligations / %d discharged / %d undecided, "
           "%d queries, solver %.1fs, wall %.1fs, validated %d" %
